@@ -50,7 +50,9 @@ var coAddrVals = []string{"10.1.1.1", "?", "::1", "::ffff:203.0.113.7", "2001:DB
 
 var coIdVals = []string{"0", "0", "1000", "1001", "48", "4294967295", "-1", "unset", "root", "alice", "65534", "007", "1e3", "1", "01", "+1", "daemon", "2", "bin", "lp", "001"}
 var coPathVals = []string{"/tmp/x", "/etc/passwd", "/usr/bin/python3", "/usr/bin/bash", "/usr/bin/sh", "/usr/bin/perl5", "/usr/bin/cat",
-	"/var/log/audit/", "/", "relative/p", "/tmp/with space", "/usr/bin/pythonic"}
+	"/var/log/audit/", "/", "relative/p", "/tmp/with space", "/usr/bin/pythonic",
+	// as the kernel annotates them: a removed file or directory, an unreachable or unknown one, an anonymous object
+	"/tmp/x (deleted)", "/usr/bin/cat (deleted)", " (deleted)", "(deleted)", "/tmp/x (deleted) ", "/tmp/x(deleted)", "(null)", "(unreachable)/x", "/memfd:x (deleted)", "socket:[123]", "pipe:[7]", "anon_inode:[eventpoll]", "/tmp/x/", "/tmp//x", "/tmp/./x", "//"}
 var coTokVals = []string{"x", "yes", "no", "1", "42", "pts0", "ssh", "10.0.0.1", "::1", "host.example", "NORMAL", "PARENT", "UNKNOWN",
 	"CREATE", "DELETE", "success", "failed", "fail", "unknown", "open", "connect", "recvfrom", "sendto", "accept", "bind", "*", "-", "a=b", "0x1f", "(none)"}
 
@@ -159,7 +161,7 @@ func coGenBody(rng *rand.Rand, kind int, nExtra int) (typ uint16, body string) {
 		kvs = coMaybeDrop(rng, kvs, 0.04)
 	case coKCwd:
 		typ = tCWD
-		kvs = []coKvp{{"cwd", coPick(rng, append(coPathVals, coUpHex("/tmp/a b"), coUpHex("/x\xff")))}}
+		kvs = []coKvp{{"cwd", coPick(rng, append(coPathVals, coUpHex("/tmp/a b"), coUpHex("/x\xff"), coUpHex("/tmp/a b (deleted)")))}}
 	case coKPath:
 		typ = tPATH
 		kvs = []coKvp{{"item", fmt.Sprint(rng.Intn(3))}, {"name", coPick(rng, append(coPathVals, coUpHex("/tmp/sp ace"), "(null)"))}, {"inode", fmt.Sprint(rng.Intn(100000))},
